@@ -2,6 +2,7 @@ package sx
 
 import (
 	"fmt"
+	"os"
 	"math/big"
 	"strings"
 
@@ -221,16 +222,18 @@ func (ex *Exec) assert(label string, cond *smt.Term) {
 		return
 	}
 	neg := smt.Not(cond)
-	as := append(smt.Slice(ex.constraints(), neg), neg)
+	var as []*smt.Term
+	if cond.IsFalse() {
+		// need a model of the whole path condition
+		as = ex.constraints()
+	} else {
+		as = append(smt.Slice(ex.constraints(), neg), neg)
+	}
 	key := "A" + label + "#" + pcKey(as, nil)
 	res, cached := ex.P.cacheGet(key)
 	var model smt.Model
 	var who, note string
 	if !cached {
-		if cond.IsFalse() {
-			// need a model of the path condition only
-			as = ex.constraints()
-		}
 		res, model, note, who = smt.Portfolio(as, true, ex.P.FinalLimit, false)
 		ex.nFinal++
 		if res == smt.Sat && !cond.IsFalse() {
@@ -260,6 +263,10 @@ func (ex *Exec) assert(label string, cond *smt.Term) {
 	case smt.Unsat:
 		ex.assume(cond)
 	case smt.Sat:
+		if !cached && os.Getenv("GSX_DEBUG") != "" {
+			sc, _ := smt.Script(as, true)
+			os.WriteFile(fmt.Sprintf("/tmp/gsx-finding-%s-%d.smt2", strings.ReplaceAll(label, " ", "_"), len(ex.taken)), []byte(sc), 0o644)
+		}
 		if !cached {
 			ex.findings = append(ex.findings, &Finding{Label: label, Kind: "assert", Pos: ex.curPos,
 				Msg: "assertion can fail: " + cond.String(), Model: model, Solver: who,
